@@ -23,6 +23,24 @@
 (* refused (exactly when one of its groups is itself not aggregable) and   *)
 (* that every bracketing that is not refused yields the same transaction.  *)
 (*                                                                         *)
+(* Offsets are summed as integers: a sum of offsets that cancel (o and -o, *)
+(* a triple, a group inside a larger family, the family against the        *)
+(* previous header's total) is the ZERO offset, a legitimate value - the   *)
+(* aggregate, the block and the remainder of a de-aggregation exist and    *)
+(* carry it (CancelForms names the forms, CancellationsCovered demands     *)
+(* that the libraries show each of them).                                  *)
+(*                                                                         *)
+(* Inputs reach the code in two representations (Inputs::CommitOnly and    *)
+(* Inputs::FeaturesAndCommit, with the output features the spender         *)
+(* claims): a transaction may carry a field iv naming the one it is        *)
+(* realised in.  Every operator below reads commitments only, so the       *)
+(* representation of the operands never shows in a result (TxEq).          *)
+(*                                                                         *)
+(* Hydration has two routes: the transactions handed over directly         *)
+(* (Hydrate) and the node's own - Pool::retrieve_transactions looks the    *)
+(* kernels the compact block lists up in a pool that holds the family in   *)
+(* some grouping next to unrelated entries (Retrieve), then hydrate_from.  *)
+(*                                                                         *)
 (* The module is an oracle and a case generator: the walk is               *)
 (*   root -> library -> family (<= 4 transactions of the library)          *)
 (*        -> plan (a permutation of the family with a bracketing)          *)
@@ -34,7 +52,7 @@ CONSTANTS
   Libraries,     \* sequence of libraries; a library is a sequence of valid transactions
   Rewards,       \* per library: [out |-> coinbase output without its value, kern |-> coinbase kernel]
   MaxFamily,     \* transactions per family (<= 4)
-  PrevOffset     \* total kernel offset of the previous header (block clauses)
+  PrevOffsets    \* total kernel offsets of the previous header (block clauses), a set containing 0
 
 VARIABLES phase, lib, fam, plan
 
@@ -177,6 +195,25 @@ BlockEq(a, b) ==
   IF IsErr(a) \/ IsErr(b) THEN IsErr(a) /\ IsErr(b)
   ELSE TxEq(a.body, b.body) /\ a.total = b.total
 
+\* ---- Pool::retrieve_transactions(cb.hash(), cb.nonce, cb.kern_ids()) as compact_block_received calls it.
+\* A pool is a sequence of entries (transactions, possibly aggregates).  kern_ids are modelled as the
+\* kernels themselves: a short id names its kernel under every nonce (collisions of the 48-bit ids are
+\* outside the model), and the ORDER of the ids - which does depend on the nonce - must not matter.
+\* Every entry that owns a listed kernel is returned ONCE, however many of its kernels are listed;
+\* `missing` are the listed kernels no entry owns.
+Owns(t, k) == \E i \in 1..Len(t.kerns) : t.kerns[i] = k
+Retrieve(pool, cb) ==
+  [txs |-> SelectSeq(pool, LAMBDA t : \E i \in 1..Len(cb.kern_ids) : Owns(t, cb.kern_ids[i])),
+   missing |-> SelectSeq(cb.kern_ids, LAMBDA k : ~\E j \in 1..Len(pool) : Owns(pool[j], k))]
+\* the pool of a receiving node: the block's transactions in some grouping between unrelated entries
+PoolOf(parts, others) ==
+  (IF Len(others) >= 1 THEN <<others[1]>> ELSE <<>>) \o parts \o (IF Len(others) >= 2 THEN Tail(others) ELSE <<>>)
+\* the node's route: hydrate from what the pool returns, and only when nothing is missing
+HydrateViaPool(cb, pool) ==
+  LET r == Retrieve(pool, cb)
+  IN  IF r.missing # <<>> THEN [err |-> TRUE, missing |-> r.missing] ELSE Hydrate(cb, r.txs)
+Sids(ks) == [i \in 1..Len(ks) |-> ks[i].sid]
+
 -----------------------------------------------------------------------------
 \* Plans: a leaf [t |-> i] is the i-th transaction of the family, a node [g |-> <<plans>>] is
 \* aggregate() applied to the results of its children in that order.
@@ -217,10 +254,12 @@ Plans(n) ==
          \cup {FoldL(s, n), FoldR(s, 1)})                                 \* nested binary, both ways
          : s \in Perms(n)}
 
+PlanChoices(n) == Plans(n)     \* the emit configuration walks families only
 \* ---- families
 Lib == Libraries[lib]
 Txs == [i \in 1..Len(fam) |-> Lib[fam[i]]]
-Families(l) == {SetToSortSeq(S, LT) : S \in {T \in SUBSET (1..Len(Libraries[l])) : Cardinality(T) <= MaxFamily}}
+MaxFamilyOf(l) == MaxFamily     \* MC modules may bound the families of a library more tightly
+Families(l) == {SetToSortSeq(S, LT) : S \in {T \in SUBSET (1..Len(Libraries[l])) : Cardinality(T) <= MaxFamilyOf(l)}}
 
 \* every commitment is created at most once and spent at most once within the family
 ConflictFree(txs) ==
@@ -246,7 +285,7 @@ ChooseFamily ==
 
 ChoosePlan ==
   /\ phase = "family"
-  /\ \E p \in Plans(Len(fam)) : plan' = p
+  /\ \E p \in PlanChoices(Len(fam)) : plan' = p
   /\ phase' = "plan" /\ UNCHANGED <<lib, fam>>
 
 Next == ChooseLibrary \/ ChooseFamily \/ ChoosePlan
@@ -321,15 +360,37 @@ DeaggregateRemainder ==
 
 \* block -> compact block -> hydrated from the same transactions in any order / grouping whose
 \* groups exist is the block; and the block built from those groups is that block too
+BlockCtx(b) == [as |-> "block", prev |-> b.prev, total |-> b.total, height |-> BlockHeight, ver |-> TB!NrdVersion, nrd |-> TRUE]
+Prev0 == CHOOSE p \in PrevOffsets : \A q \in PrevOffsets : p >= q
 HydrateIdentity ==
   (AtPlan /\ Aggregable(Txs) /\ PartsOk(plan, Txs)) =>
-    LET b == BlockOf(Txs, Rewards[lib], PrevOffset)
-        parts == Parts(plan, Txs)
-    IN  /\ BlockEq(Hydrate(Compact(b), parts), b)
-        /\ BlockEq(BlockOf(parts, Rewards[lib], PrevOffset), b)
+    \A prev \in PrevOffsets :
+      LET b == BlockOf(Txs, Rewards[lib], prev)
+          parts == Parts(plan, Txs)
+      IN  /\ BlockEq(Hydrate(Compact(b), parts), b)
+          /\ BlockEq(BlockOf(parts, Rewards[lib], prev), b)
 
-\* OrderGroupingIndependent and HydrateIdentity in one evaluation (each aggregate computed once);
-\* this is what the configurations check at the plan states
+\* ... and so it is on the node's own route: the pool holds the family in that grouping (between
+\* unrelated entries); retrieve_transactions returns exactly those entries, each once, nothing is
+\* missing, and hydrating from them gives the block.  A pool that lacks one of the groups reports
+\* exactly that group's kernels as missing (the node then asks for the full block).
+Bystanders == LET o == SelectSeq([i \in 1..Len(Lib) |-> i], LAMBDA i : \A j \in 1..Len(fam) : fam[j] # i)
+              IN  [i \in 1..(IF Len(o) < 2 THEN Len(o) ELSE 2) |-> Lib[o[i]]]
+HydrateViaPoolIdentity ==
+  (AtPlan /\ Aggregable(Txs) /\ PartsOk(plan, Txs)) =>
+    LET b == BlockOf(Txs, Rewards[lib], Prev0)
+        cb == Compact(b)
+        parts == Parts(plan, Txs)
+        r == Retrieve(PoolOf(parts, Bystanders), cb)
+    IN  /\ r.missing = <<>> /\ BagEq(r.txs, parts)
+        /\ BlockEq(HydrateViaPool(cb, PoolOf(parts, Bystanders)), b)
+        /\ \A j \in 1..Len(parts) :
+             LET q == Retrieve(PoolOf(RemoveAt(parts, j), Bystanders), cb)
+             IN  BagEq(q.missing, parts[j].kerns) /\ BagEq(q.txs, RemoveAt(parts, j))
+
+\* OrderGroupingIndependent, HydrateIdentity and HydrateViaPoolIdentity in one evaluation (each
+\* aggregate computed once; the block body does not depend on the previous offset, the header total
+\* is checked for every one); this is what the configurations check at the plan states
 PlanChecks ==
   AtPlan =>
     LET all == All
@@ -337,28 +398,60 @@ PlanChecks ==
         parts == Parts(plan, Txs)
         pok == \A i \in 1..Len(parts) : ~IsErr(parts[i])
         e == IF IsLeaf(plan) THEN parts[1] ELSE Aggregate(parts)
-        b == BlockFrom(all, Rewards[lib], PrevOffset)
+        b == BlockFrom(all, Rewards[lib], Prev0)
+        cb == Compact(b)
+        pool == PoolOf(parts, Bystanders)
+        r == Retrieve(pool, cb)
     IN  /\ IsErr(e) <=> PlanRefused(plan, Txs)
         /\ ~IsErr(e) => TxEq(e, all) /\ ToSet(e.outs) \subseteq ToSet(AllOuts(Txs))
         /\ ~ag => IsErr(e)
         /\ ConflictFree(Txs) => ~IsErr(e)
-        /\ (ag /\ pok) => /\ BlockEq(Hydrate(Compact(b), parts), b)
-                          /\ BlockEq(BlockFrom(e, Rewards[lib], PrevOffset), b)
+        /\ (ag /\ pok) => /\ BlockEq(Hydrate(cb, parts), b)
+                          /\ BlockEq(BlockFrom(e, Rewards[lib], Prev0), b)
+                          /\ \A prev \in PrevOffsets : BlockFrom(e, Rewards[lib], prev).total = prev + SumOff(Txs)
+                          \* through the pool: what is retrieved is the grouping itself, so Hydrate above is the
+                          \* hydration the node performs (HydrateViaPoolIdentity spells it out, every lacking pool included)
+                          /\ r.missing = <<>> /\ r.txs = parts
+                          /\ \A j \in {1, Len(parts)} \cap (1..Len(parts)) :
+                               LET q == Retrieve(PoolOf(RemoveAt(parts, j), Bystanders), cb)
+                               IN  BagEq(q.missing, parts[j].kerns) /\ q.txs = RemoveAt(parts, j)
 
-\* and that block is a valid block body
+\* and that block is a valid block body, on top of every previous offset
 BlockValid ==
   (AtFamily /\ Aggregable(Txs)) =>
-    LET b == BlockOf(Txs, Rewards[lib], PrevOffset)
-    IN  ~IsErr(b) /\ TB!BlockBodyValid(b.body, [as |-> "block", prev |-> b.prev, total |-> b.total,
-                                               height |-> BlockHeight, ver |-> TB!NrdVersion, nrd |-> TRUE])
+    \A prev \in PrevOffsets :
+      LET b == BlockOf(Txs, Rewards[lib], prev)
+      IN  ~IsErr(b) /\ b.total = prev + SumOff(Txs) /\ TB!BlockBodyValid(b.body, BlockCtx(b))
 
-\* libsecp can compute every sum the code forms on the way (the converse direction is comparable):
-\* no group of non-zero offsets cancels, no aggregate has a zero blinding or excess sum
+\* ---- offsets that cancel.  Offsets are chosen freely by whoever builds a transaction, so a family may
+\* hold o and -o, three that sum to zero, such a group next to others (a grouping then meets the zero
+\* sum on the way to a non-zero total), or add up to minus the previous header's total.  The sum is
+\* the zero offset then (AggregateFaithful: a.off = SumOff; BlockValid: total = prev + SumOff;
+\* DeaggregateRemainder: the remainder's offset is what is left) - nothing is refused for it.
+NonZeroGroups(txs) == {S \in SUBSET (1..Len(txs)) : Cardinality(S) >= 2 /\ \A i \in S : txs[i].off # 0}
+Cancelling(txs) == {S \in NonZeroGroups(txs) : SumOff(Sub(txs, S)) = 0}
+CancelForms(txs) ==
+  LET n == Len(txs)
+      C == Cancelling(txs)
+      tot == SumOff(txs)
+  IN  {"pair" : S \in {T \in C : Cardinality(T) = 2}}
+      \cup {"triple" : S \in {T \in C : Cardinality(T) = 3 /\ \A U \in C : ~(U \subseteq T /\ U # T)}}
+      \cup {"inner" : S \in {T \in C : Cardinality(T) < n /\ tot # 0}}              \* zero on the way to a non-zero total
+      \cup {"total" : S \in {T \in C : tot = 0}}                                  \* the aggregate's offset is zero
+      \cup {"remainder" : S \in {T \in C : Cardinality(T) < n /\ Independent(txs)}} \* de-aggregating the rest leaves zero
+      \cup {"known_subset" : S \in {T \in C : Cardinality(T) < n /\ Independent(txs) /\ tot # 0}} \* the known subset sums to zero
+      \cup {"prev" : p \in {q \in PrevOffsets : q # 0 /\ q + tot = 0 /\ n >= 1}}    \* the header total is zero
+WantedCancelForms == {"pair", "triple", "inner", "total", "remainder", "known_subset", "prev"}
+OffsetsCancel(txs) == CancelForms(txs) # {}
+
+\* libsecp can compute every sum of COMMITMENTS the code forms on the way (the converse direction is
+\* comparable): no aggregate has a zero blinding or excess sum, as a transaction or inside its block.
+\* (Offsets that cancel are not degenerate: see above.)
 NonDegenerate(txs) ==
-  /\ \A S \in SUBSET (1..Len(txs)) :
-        S # {} => LET sub == Sub(txs, S)
-                  IN  (\E i \in 1..Len(sub) : sub[i].off # 0) => (SumOff(sub) # 0 /\ PrevOffset + SumOff(sub) # 0)
-  /\ LET a == Aggregate(txs) IN IsErr(a) \/ Len(txs) = 0 \/ ~TB!Degenerate(a, TxCtx)
+  LET a == Aggregate(txs)
+  IN  IsErr(a) \/ Len(txs) = 0
+      \/ /\ ~TB!Degenerate(a, TxCtx)
+         /\ \A prev \in PrevOffsets : LET b == BlockFrom(a, Rewards[lib], prev) IN ~TB!Degenerate(b.body, BlockCtx(b))
 LibrariesNonDegenerate == AtFamily => NonDegenerate(Txs)
 
 \* vacuity guards (checked at the root state): the libraries exercise every shape, and for every
@@ -369,4 +462,12 @@ Kills(mode) ==
     ~TxEq(EvalM(mode, p, LibFamily(l, f)), Eval(p, LibFamily(l, f)))
 CarelessKilled == phase = "root" => \A m \in CutModes \ {"after"} : Kills(m)
 ShapesOfLibrary(l) == UNION {Shapes([i \in 1..Len(f) |-> Libraries[l][f[i]]]) : f \in Families(l)}
+\* ... and every form of cancelling offsets
+CancelFormsOfLibrary(l) == UNION {CancelForms(LibFamily(l, f)) : f \in Families(l)}
+CancellationsCovered ==
+  phase = "root" => WantedCancelForms \subseteq UNION {CancelFormsOfLibrary(l) : l \in 1..Len(Libraries)}
+\* ... and both representations of inputs, also side by side in one family
+InputVariantsOf(txs) == {IF "iv" \in DOMAIN txs[i] THEN txs[i].iv ELSE "co" : i \in 1..Len(txs)}
+VariantsCovered ==
+  phase = "root" => \E l \in 1..Len(Libraries) : \E f \in Families(l) : {"co", "fc", "fcb"} \subseteq InputVariantsOf(LibFamily(l, f))
 =============================================================================
